@@ -16,7 +16,16 @@ import (
 	"fmt"
 	"os"
 	"path/filepath"
+	"reflect"
 	"strings"
+	"unsafe"
+
+	"github.com/ontio/ontology-crypto/keypair"
+	"github.com/ontio/ontology/common/config"
+	"github.com/ontio/ontology/core/genesis"
+	"github.com/ontio/ontology/core/ledger"
+	"github.com/ontio/ontology/core/store/ledgerstore"
+	"github.com/syndtr/goleveldb/leveldb"
 
 	"github.com/ontio/ontology/account"
 	"github.com/ontio/ontology/cmd/utils"
@@ -235,4 +244,188 @@ func (k *Kit) SafeClose() (err error) {
 		}
 	}()
 	return k.Close()
+}
+
+// ---- stateHashCheckHeight, second-level compositions, real mid-commit deaths --------------------------------------
+
+func genesisFor(book *account.Account) ([]keypair.PublicKey, *types.Block, error) {
+	InitGlobals()
+	bookkeepers := []keypair.PublicKey{book.PublicKey}
+	config.DefConfig.Genesis.SOLO.Bookkeepers = []string{hex.EncodeToString(keypair.SerializePublicKey(book.PublicKey))}
+	gb, err := genesis.BuildGenesisBlock(bookkeepers, config.DefConfig.Genesis)
+	return bookkeepers, gb, err
+}
+
+// OpenAt is Open with an explicit stateHashCheckHeight (the node passes config.GetStateHashCheckHeight; Open uses 0);
+// panics are turned into errors.
+func OpenAt(dir string, book *account.Account, shc uint32) (k *Kit, err error) {
+	defer func() {
+		if e := recover(); e != nil {
+			k, err = nil, fmt.Errorf("panic: %v", e)
+		}
+	}()
+	bookkeepers, gb, err := genesisFor(book)
+	if err != nil {
+		return nil, err
+	}
+	ld, err := ledger.InitLedger(dir, shc, bookkeepers, gb)
+	if err != nil {
+		return nil, err
+	}
+	ledger.DefLedger = ld
+	k = &Kit{Dir: dir, Ledger: ld, Store: ld.LedgerStore.(*ledgerstore.LedgerStoreImp), Book: book, Genesis: gb}
+	if h, e := ld.GetHeaderByHeight(ld.GetCurrentBlockHeight()); e == nil && h != nil {
+		k.Time = h.Timestamp
+	}
+	return k, nil
+}
+
+// ComposeFrom builds dst from the data directory base, taking the sub-directories named in pick from the given other
+// data directories, and writes file as the hash file.
+func ComposeFrom(dst, base string, pick map[string]string, file []byte) error {
+	if err := os.RemoveAll(dst); err != nil {
+		return err
+	}
+	if err := os.MkdirAll(dst, 0o755); err != nil {
+		return err
+	}
+	ents, err := os.ReadDir(base)
+	if err != nil {
+		return err
+	}
+	for _, e := range ents {
+		name := e.Name()
+		if name == MerkleFile {
+			continue
+		}
+		src := base
+		if p, ok := pick[name]; ok {
+			src = p
+		}
+		if e.IsDir() {
+			if err := CopyDir(filepath.Join(src, name), filepath.Join(dst, name)); err != nil {
+				return err
+			}
+		} else {
+			b, err := os.ReadFile(filepath.Join(src, name))
+			if err != nil {
+				return err
+			}
+			if err := os.WriteFile(filepath.Join(dst, name), b, 0o644); err != nil {
+				return err
+			}
+		}
+	}
+	return os.WriteFile(filepath.Join(dst, MerkleFile), file, 0o755)
+}
+
+func unexportedField(v reflect.Value, name string) (reflect.Value, error) {
+	for v.Kind() == reflect.Interface || v.Kind() == reflect.Ptr {
+		if v.IsNil() {
+			return reflect.Value{}, fmt.Errorf("nil while looking for field %s", name)
+		}
+		v = v.Elem()
+	}
+	if v.Kind() != reflect.Struct {
+		return reflect.Value{}, fmt.Errorf("field %s: not a struct", name)
+	}
+	f := v.FieldByName(name)
+	if !f.IsValid() {
+		return reflect.Value{}, fmt.Errorf("field %s not found in %s", name, v.Type())
+	}
+	if !f.CanAddr() {
+		return reflect.Value{}, fmt.Errorf("field %s not addressable", name)
+	}
+	return reflect.NewAt(f.Type(), unsafe.Pointer(f.UnsafeAddr())).Elem(), nil
+}
+
+// BreakStore makes the LevelDB instance under one store of the ledger ("block", "event", "state") refuse every further
+// write (reads keep working): the device of that store turned read-only. The next CommitTo of that store fails, the
+// caller then abandons the ledger WITHOUT closing it — a real death in the middle of the commit sequence, produced by
+// the code under test itself (technique of /verif/seeded/C01/demo; reflection only, no hook in /repo).
+func BreakStore(ls *ledgerstore.LedgerStoreImp, which string) error {
+	field := map[string]string{"block": "blockStore", "event": "eventStore", "state": "stateStore"}[which]
+	if field == "" {
+		return fmt.Errorf("unknown store %q", which)
+	}
+	st, err := unexportedField(reflect.ValueOf(ls), field)
+	if err != nil {
+		return err
+	}
+	lv, err := unexportedField(st, "store")
+	if err != nil {
+		return err
+	}
+	dbf, err := unexportedField(lv, "db")
+	if err != nil {
+		return err
+	}
+	db, ok := dbf.Interface().(*leveldb.DB)
+	if !ok || db == nil {
+		return fmt.Errorf("%s.store.db is not a *leveldb.DB", field)
+	}
+	return db.SetReadOnly()
+}
+
+// DieInCommit opens the data directory, executes blk, breaks the given store and submits the block: the commit sequence
+// stops at that store's CommitTo. The directory as the dead process leaves it is copied to image (nothing is closed
+// before the copy). died=false when SubmitBlock succeeded although the store was broken.
+func DieInCommit(dir, image string, book *account.Account, shc uint32, blk *types.Block, which string) (died bool, err error) {
+	k, err := OpenAt(dir, book, shc)
+	if err != nil {
+		return false, err
+	}
+	defer k.SafeClose()
+	res, err := k.Ledger.ExecuteBlock(blk)
+	if err != nil {
+		return false, fmt.Errorf("execute: %v", err)
+	}
+	if err := BreakStore(k.Store, which); err != nil {
+		return false, err
+	}
+	serr := func() (e error) {
+		defer func() {
+			if p := recover(); p != nil {
+				e = fmt.Errorf("panic: %v", p)
+			}
+		}()
+		return k.Ledger.SubmitBlock(blk, nil, res)
+	}()
+	if err := CopyDir(dir, image); err != nil {
+		return false, err
+	}
+	return serr != nil, nil
+}
+
+// DieInRecovery opens the stores of the data directory, breaks the given store and runs the ledger initialisation
+// (loadCurrentBlock, recoverStore, ...): a replay that has to commit to the broken store stops there. The directory as
+// the dead process leaves it is copied to image. died=false when the initialisation completed (nothing to commit).
+func DieInRecovery(dir, image string, book *account.Account, shc uint32, which string) (died bool, err error) {
+	bookkeepers, gb, err := genesisFor(book)
+	if err != nil {
+		return false, err
+	}
+	ls, err := ledgerstore.NewLedgerStore(dir, shc)
+	if err != nil {
+		return false, err
+	}
+	defer func() {
+		defer func() { recover() }()
+		ls.Close()
+	}()
+	if err := BreakStore(ls, which); err != nil {
+		return false, err
+	}
+	ierr := func() (e error) {
+		defer func() {
+			if p := recover(); p != nil {
+				e = fmt.Errorf("panic: %v", p)
+			}
+		}()
+		return ls.InitLedgerStoreWithGenesisBlock(gb, bookkeepers)
+	}()
+	if err := CopyDir(dir, image); err != nil {
+		return false, err
+	}
+	return ierr != nil, nil
 }
